@@ -7,6 +7,36 @@ use serde_json::{Value, json};
 
 use crate::rng::hash_str;
 
+/// bumped at every case; the hang watchdog (below) looks at it
+pub static HEARTBEAT: std::sync::atomic::AtomicU64 = std::sync::atomic::AtomicU64::new(0);
+static KEEP_LAST: std::sync::atomic::AtomicBool = std::sync::atomic::AtomicBool::new(false);
+static LAST_CASE: std::sync::Mutex<Option<String>> = std::sync::Mutex::new(None);
+
+/// Per-case watchdog for properties with a termination clause. When no case boundary is crossed for `secs` seconds the
+/// case in progress is written to `hang_path` and the process exits with status 5; `check` replays that case alone
+/// (twice, with a much longer limit) before anything is called a violation. A wall-clock limit only *nominates* a case.
+pub fn start_hang_watchdog(secs: u64, hang_path: String) {
+    KEEP_LAST.store(true, std::sync::atomic::Ordering::Relaxed);
+    std::thread::spawn(move || {
+        let mut last = HEARTBEAT.load(std::sync::atomic::Ordering::Relaxed);
+        let mut since = std::time::Instant::now();
+        loop {
+            std::thread::sleep(std::time::Duration::from_millis(500));
+            let now = HEARTBEAT.load(std::sync::atomic::Ordering::Relaxed);
+            if now != last {
+                last = now;
+                since = std::time::Instant::now();
+            } else if since.elapsed().as_secs() >= secs {
+                // the main thread may hold the lock only while storing a case, never while running one
+                let case = LAST_CASE.lock().ok().and_then(|g| g.clone()).unwrap_or_default();
+                let _ = std::fs::write(&hang_path, case);
+                eprintln!("NQV-CASE-TIMEOUT no case boundary for {secs}s; case written to {hang_path}");
+                std::process::exit(5);
+            }
+        }
+    });
+}
+
 #[derive(Clone, Debug)]
 pub struct Violation {
     /// deterministic signature of the disagreement (no names, sizes or seeds)
@@ -46,11 +76,17 @@ impl Report {
         *self.counters.entry(key.to_string()).or_insert(0) += n;
     }
     pub fn trace_case(&self, f: impl FnOnce() -> Value) {
+        HEARTBEAT.fetch_add(1, std::sync::atomic::Ordering::Relaxed);
         if let Some(p) = &self.trace_path {
             let _ = std::fs::write(p, serde_json::to_string(&f()).unwrap_or_default());
+        } else if KEEP_LAST.load(std::sync::atomic::Ordering::Relaxed) {
+            if let Ok(mut g) = LAST_CASE.lock() {
+                *g = Some(serde_json::to_string(&f()).unwrap_or_default());
+            }
         }
     }
     pub fn eval(&mut self) {
+        HEARTBEAT.fetch_add(1, std::sync::atomic::Ordering::Relaxed);
         self.evaluations += 1;
     }
     /// register a distinct non-trivial case by its canonical text
